@@ -245,9 +245,19 @@ def random_module(rng: random.Random, max_claims=6, with_imports=True, syms=SYMS
             a_, b_ = rng.sample((0, 1, 2), 2)
             x_ = rng.choice((0, 1))
             pend = P.ESubst(P.MetaVar(a_), P.EVar(x_), P.MetaVar(b_)) if rng.random() < 0.5 else P.SSubst(P.MetaVar(a_), P.SVar(x_), P.MetaVar(b_))
+            if rng.random() < 0.4:
+                # ... stacked on another pending substitution of the other kind (element over set variable or the other way round)
+                inner_plug = P.Symbol(rng.choice(syms))
+                y_ = (x_ + 1) % 2
+                if isinstance(pend, P.ESubst):
+                    pend = P.ESubst(P.SSubst(P.MetaVar(a_), P.SVar(y_), inner_plug), P.EVar(x_), P.MetaVar(b_))
+                else:
+                    pend = P.SSubst(P.ESubst(P.MetaVar(a_), P.EVar(y_), inner_plug), P.SVar(x_), P.MetaVar(b_))
+                tags.add('stacked_pending_substitutions')
             base_th = prop.prop1_inst(pend, p_()) if rng.random() < 0.5 else prop.imp_refl(pend)
             newplug = pat(rng, 1, 0.0, 0.2, syms)
             # (an identity plug would make the substitution redundant, which the machine refuses to build and the toolkit cannot judge)
+            add(base_th, 'lemma over a pending substitution')
             if (tb.of_repo(newplug) not in (tb.ev(x_), tb.sv(x_)) and _wf(tb.of_repo(P.ESubst(P.MetaVar(a_), P.EVar(x_), newplug)))
                     and admissible_inst(base_th.conc, {b_: newplug})):     # (the other argument may hold a constrained metavariable of the same number)
                 add(mod.dynamic_inst(base_th, {b_: newplug}), 'dynamic_inst(plug metavariable of a pending substitution)')
